@@ -8,6 +8,7 @@
 #include "ctl_proto.h"
 #include "util.h"
 
+#include <errno.h>
 #include <stdio.h>
 #include <stdlib.h>
 #include <string.h>
@@ -25,12 +26,18 @@ void ctl_get_dir(char *buf, size_t capacity)
 
 #define CTL_UX_PREFIX "ctl-"
 
-void ctl_derive_path(const char *ctl_dir, pid_t creator_pid, int64_t sock_id,
-		     char *buf, size_t capacity)
+int ctl_derive_path(const char *ctl_dir, pid_t creator_pid, int64_t sock_id,
+		    char *buf, size_t capacity)
 {
     int rc = snprintf(buf, capacity, "%s/%s%d-%" PRId64, ctl_dir, CTL_UX_PREFIX,
 		      creator_pid, sock_id);
-    ut_assert(rc <= capacity);
+
+    if (rc < 0 || (size_t)rc >= capacity) {
+	errno = ENAMETOOLONG;
+	return -1;
+    }
+
+    return 0;
 }
 
 bool ctl_parse_info(const char *filename, pid_t *creator_pid, int64_t *sock_ref)
